@@ -42,13 +42,19 @@ pub(crate) fn range_with_prefix<'a>(
         None => namespace.to_vec(),
     };
     let end = match end {
-        Some(e) => concat(namespace, e),
-        // end is updating last byte by one
-        None => namespace_upper_bound(namespace),
+        Some(e) => Some(concat(namespace, e)),
+        // end is the shortest key greater than every key with this prefix: trailing 255 bytes
+        // carry over and are cut off, the last remaining byte is updated by one;
+        // a prefix that is empty or all 255 has no such key, so the range stays open-ended
+        None => {
+            let trailing = namespace.iter().rev().take_while(|b| **b == 255).count();
+            let significant = &namespace[..namespace.len() - trailing];
+            (!significant.is_empty()).then(|| namespace_upper_bound(significant))
+        }
     };
 
     // get iterator from storage
-    let base_iterator = storage.range(Some(&start), Some(&end), order);
+    let base_iterator = storage.range(Some(&start), end.as_deref(), order);
 
     // make a copy for the closure to handle lifetimes safely
     let prefix = namespace.to_vec();
